@@ -62,7 +62,7 @@ func corrRofs(seed uint64, tier string, replay []string) *lib.Result {
 		prefill(base, r)
 		w := newFsOn(rofs.New(base))
 		b := newFsOn(base) // reference answers on the same base
-		g := &fsGen{r: r.Split(), impl: b, opts: fsGenOpts{symlinks: true, files: true, views: true}, nviews: 1}
+		g := &fsGen{r: r.Split(), impl: b, opts: fsGenOpts{symlinks: true, files: true, views: true, rdonly: true}, nviews: 1}
 		var hist lib.History
 		for i := 0; i < nl; i++ {
 			l := g.next()
@@ -141,7 +141,7 @@ var errInjectedWrap = errors.New("injected")
 // corrFailfs: FailFS with no failure function ≟ its base (twin instance), and single-fault plans.
 func corrFailfs(seed uint64, tier string, replay []string) *lib.Result {
 	res := &lib.Result{Property: "C12",
-		Rule: "random histories through FailFS over MemFS, in lockstep with a twin MemFS driven directly: (1) no failure function: outcomes and node graphs equal after every call; (2) for every history every plan 'fail the k-th consulted primitive' (k over all consultations of the history, exhaustive per history): the failing call returns exactly the injected error and leaves the base untouched, earlier calls behave as on the base; (3) ReadOnlyFunc: the base never changes; a case is one call under one plan; distinct non-trivial = distinct (call kind, outcome, plan kind)"}
+		Rule: "random histories through FailFS over MemFS, in lockstep with a twin MemFS driven directly: (1) no failure function: outcomes and node graphs equal after every call; (2) for every history every plan 'fail the k-th consulted primitive' (k over all consultations of the history, exhaustive per history): the failing call returns exactly the injected error and leaves the base untouched, earlier calls behave as on the base; (3) ReadOnlyFunc: the base never changes; (5) every composite call of the history (Create, WriteFile, ReadFile, ReadDir, MkdirTemp) that succeeds without faults is re-run with EVERY invocation of a primitive it is built on (Mkdir / OpenFile / FileWrite / FileRead / FileReadDir) made to fail: it must return the injected error, and leave the base unchanged when the primitive is its first; (4) announcement: with a second FailFS between the wrapper and the base, the primitives that reach the lower layer during each call (temp-name calls included) are exactly those shown to the upper failure function; a case is one call under one plan; distinct non-trivial = distinct (call kind, outcome, plan kind)"}
 	st := lib.NewStats()
 	nh, nl := 60, 25
 	if tier == "thorough" {
@@ -271,6 +271,125 @@ func corrFailfs(seed uint64, tier string, replay []string) *lib.Result {
 				if o2[i] != touts[i] {
 					report("failfs.before-fault", fmt.Sprintf("call %q before the injected fault differs from the base", hist[i]), hist[:i+1], o2[i], touts[i])
 					break
+				}
+			}
+		}
+		// (4) announcement: with a second FailFS between the wrapper and the base, every primitive that reaches the
+		// lower layer during a call must have been shown to the failure function of the upper layer first (composite ids
+		// are dropped: a composite either runs over the wrapper, so that its primitives are announced one by one, or is
+		// forwarded whole, and then the lower layer sees only the composite id too). Temp-name calls are included here.
+		{
+			composite := map[string]bool{"CreateTemp": true, "MkdirAll": true, "MkdirTemp": true, "ReadDir": true, "ReadFile": true,
+				"RemoveAll": true, "WalkDir": true, "WriteFile": true}
+			base := memfs.New()
+			prefill(base, lib.NewRng(1))
+			var outerT, innerT []string
+			inner := failfs.New(base)
+			_ = inner.SetFailFunc(func(_ avfs.VFSBase, fn avfs.FnVFS, _ *failfs.FailParam) error {
+				if !composite[fn.String()] {
+					innerT = append(innerT, fn.String())
+				}
+				return nil
+			})
+			outer := failfs.New(inner)
+			_ = outer.SetFailFunc(func(_ avfs.VFSBase, fn avfs.FnVFS, _ *failfs.FailParam) error {
+				if !composite[fn.String()] {
+					outerT = append(outerT, fn.String())
+				}
+				return nil
+			})
+			w := newFsOn(outer)
+			h4 := append(lib.History{}, hist...)
+			if replay == nil {
+				dirs := []string{"", "/tmp", "/a", "/a/b", "/missing"}
+				pats := []string{"t", "t*x", "*", ""}
+				h4 = append(h4, fmt.Sprintf("fs 0 mkdirtemp %s %s ?", lib.Hex(lib.Pick(gr, dirs)), lib.Hex(lib.Pick(gr, pats))),
+					fmt.Sprintf("fs 0 createtemp %s %s ?", lib.Hex(lib.Pick(gr, dirs)), lib.Hex(lib.Pick(gr, pats))))
+			}
+			for i, l := range h4 {
+				no, ni := len(outerT), len(innerT)
+				o := w.call(l)
+				f := strings.Fields(l)
+				st.Count(f[2]+"|"+lib.OutcomeClass(o)+"|announce", f[2]+"|announce|"+lib.OutcomeClass(o))
+				po, pi := strings.Join(outerT[no:], ","), strings.Join(innerT[ni:], ",")
+				if po != pi {
+					report("failfs.unannounced-primitive."+f[2], fmt.Sprintf("during %q the primitives [%s] reached the base but the failure function was shown [%s]: a failure plan cannot make them fail", l, pi, po), h4[:i+1], o, po, pi)
+					break
+				}
+				if w.dead {
+					break
+				}
+			}
+		}
+		// (5) composites fail when a primitive they are BUILT ON is made to fail — the plan is stated by primitive, not
+		// taken from the consultations observed (a composite that bypasses the wrapper consults nothing)
+		{
+			builtOn := map[string][]string{"mkdirtemp": {"Mkdir"}, "create": {"OpenFile"}, "writefile": {"OpenFile", "FileWrite"},
+				"readfile": {"OpenFile", "FileRead"}, "readdir": {"OpenFile", "FileReadDir"}}
+			h5 := append(lib.History{}, hist...)
+			if replay == nil {
+				h5 = append(h5, fmt.Sprintf("fs 0 mkdirtemp %s %s ?", lib.Hex(lib.Pick(gr, []string{"", "/tmp", "/a"})), lib.Hex(lib.Pick(gr, []string{"t", "t*x", "*"}))))
+			}
+			for i, l := range h5 {
+				f := strings.Fields(l)
+				prims, ok := builtOn[f[2]]
+				if !ok {
+					continue
+				}
+				for _, prim := range prims {
+					base := memfs.New()
+					prefill(base, lib.NewRng(1))
+					ff := failfs.New(base)
+					armed, hit := false, false
+					_ = ff.SetFailFunc(func(_ avfs.VFSBase, fn avfs.FnVFS, _ *failfs.FailParam) error {
+						if armed && fn.String() == prim {
+							hit = true
+							return errInjectedWrap
+						}
+						return nil
+					})
+					w := newFsOn(ff)
+					for _, pl := range h5[:i] {
+						w.call(pl)
+					}
+					if w.dead {
+						break
+					}
+					// would the call succeed, and does it use the primitive at all, without the fault? (twin instance)
+					base2 := memfs.New()
+					prefill(base2, lib.NewRng(1))
+					used := false
+					ff2 := failfs.New(base2)
+					arm2 := false
+					_ = ff2.SetFailFunc(func(_ avfs.VFSBase, fn avfs.FnVFS, _ *failfs.FailParam) error {
+						if arm2 && fn.String() == prim {
+							used = true
+						}
+						return nil
+					})
+					w2 := newFsOn(ff2)
+					for _, pl := range h5[:i] {
+						w2.call(pl)
+					}
+					arm2 = true
+					free := w2.call(l)
+					before := rawDump(base)
+					armed = true
+					o := w.call(l)
+					after := rawDump(base)
+					st.Count(f[2]+"|"+lib.OutcomeClass(o)+"|fail-all:"+prim, f[2]+"|fail-all:"+prim+"|"+lib.OutcomeClass(o))
+					if !strings.HasPrefix(free, "ok") {
+						continue // the call fails on its own before or without reaching the primitive
+					}
+					mustUse := prim == "Mkdir" || prim == "OpenFile" || (prim == "FileWrite" && f[4] != "-") || used
+					if !mustUse {
+						continue
+					}
+					if !strings.Contains(o, "injected") {
+						report("failfs.composite-ignores-primitive."+f[2]+"."+prim, fmt.Sprintf("%q succeeds without faults (%q); with every %s made to fail it returns %q (fault consulted: %v): the composite does not fail when a primitive it is built on fails", l, free, prim, o, hit), h5[:i+1], o, free)
+					} else if before != after && (prim == "Mkdir" || prim == "OpenFile") {
+						report("failfs.composite-fault-effect."+f[2]+"."+prim, fmt.Sprintf("%q made to fail at its first primitive %s changed the base", l, prim), h5[:i+1], o)
+					}
 				}
 			}
 		}
